@@ -7,6 +7,8 @@ scenario = {"repo": <dir containing pypyr/>, "lib": <dir for harness step/loader
             "kind": "paths", "root": R, "cases": [{"files": [rel…], "name": str, "parent": str|null,
                                                    "parent_form": "path"|"str"}…]}
          | {…, "kind": "run", "name": str, "loader": str|null}
+         | {…, "kind": "run", "runs": [{"name": str, "loader": str|null, "py_dir": str|null}…]}
+           several root pipelines one after the other in this one process → {"runs": [{trail, err, msg}…], …}
          | {…, "kind": "seq", "root": R, "noCache": bool, "ops": [
                {"op": "fs", "files": [rel…]}          leaf pipelines present from now on (others are removed)
              | {"op": "req", "via": "obj"|"obj.run"|"new"|"runner"|"pype", "obj": k, "name": str,
@@ -130,14 +132,25 @@ def main():
                 p.parent.mkdir(parents=True, exist_ok=True)
                 p.write_text('steps: []\n')
                 created.append(p)
+            for link, target in case.get('links', []):
+                lp = root / link
+                lp.parent.mkdir(parents=True, exist_ok=True)
+                if not lp.is_symlink():
+                    os.symlink(root / target, lp)
+                created.append(lp)
             parent = case['parent']
             if parent is not None and case.get('parent_form') == 'path':
                 parent = Path(parent)
+            home = os.getcwd()
+            if case.get('chdir'):
+                os.chdir(root / case['chdir'])      # the OS cwd moves; config.cwd is what it was at import
             try:
                 r = fl.get_pipeline_path(case['name'], parent)
                 results.append({'ok': str(r)})
             except Exception as e:  # noqa: BLE001
                 results.append({'err': type(e).__name__, 'msg': str(e)})
+            finally:
+                os.chdir(home)
         out['results'] = results
     elif sc['kind'] == 'seq':
         out['results'] = run_seq(sc)
@@ -145,13 +158,46 @@ def main():
         import pypyr.pipelinerunner
         before = list(sys.path)
         import vtrail  # harness module in lib/: the step modules append what ran to vtrail.T
-        try:
-            pypyr.pipelinerunner.run(sc['name'], loader=sc.get('loader'))
-            out['err'] = None
-        except Exception as e:  # noqa: BLE001
-            out['err'] = type(e).__name__
-            out['msg'] = str(e)
-        out['trail'] = list(vtrail.T)
+        runs = sc.get('runs') or [{'name': sc['name'], 'loader': sc.get('loader'), 'py_dir': sc.get('py_dir')}]
+        if sc.get('chdir'):
+            # the OS cwd moves after import: config.cwd stays what it was
+            os.chdir(sc['chdir'])
+        per_run = []
+        for r in runs:
+            del vtrail.T[:]
+            o = {'err': None, 'msg': None}
+            py_dir = r.get('py_dir')
+            if py_dir is not None and r.get('py_dir_form') == 'path':
+                py_dir = Path(py_dir)
+            try:
+                if r.get('via') == 'cli':
+                    # the command line: --dir defaults to the cwd; errors are printed and become exit code 255
+                    import io
+                    import pypyr.cli
+                    os.environ['PYPYR_SKIP_INIT'] = '1'       # no config files of the host
+                    keep = sys.stderr
+                    sys.stderr = io.StringIO()
+                    try:
+                        rc = pypyr.cli.main([r['name']] + (['--dir', str(py_dir)] if py_dir is not None else []))
+                        text = sys.stderr.getvalue()
+                    finally:
+                        sys.stderr = keep
+                    if rc:
+                        # the last thing main() writes: "\n\x1b[91m<Type>: <message>\x1b[0;0m\n" (log lines come before it)
+                        tail = text[text.rfind('\x1b[91m') + 5:] if '\x1b[91m' in text else text
+                        tail = tail.replace('\x1b[0;0m', '').strip()
+                        o['err'] = tail.split(': ', 1)[0] or f'exit-{rc}'
+                        o['msg'] = tail.split(': ', 1)[-1]
+                else:
+                    pypyr.pipelinerunner.run(r['name'], loader=r.get('loader'), py_dir=py_dir)
+            except Exception as e:  # noqa: BLE001
+                o['err'] = type(e).__name__
+                o['msg'] = str(e)
+            o['trail'] = list(vtrail.T)
+            per_run.append(o)
+        out['runs'] = per_run
+        # the single-run view (the last run)
+        out['err'], out['msg'], out['trail'] = per_run[-1]['err'], per_run[-1]['msg'], per_run[-1]['trail']
         out['sys_path_added'] = [p for p in sys.path if p not in before]
         out['sys_path_dups'] = sorted({p for p in sys.path if sys.path.count(p) > 1 and p not in before})
     print(json.dumps(out))
